@@ -40,6 +40,9 @@ def h_dest(ctx, N, mode, prefix=(), limits=2, reject=False, disposition=False):
                      rig_kwargs={"indications": icfg, "immediate_nak": True, "ack_limit": limits,
                                  "nak_limit": limits, "check_limit": limits, "disposition": disposition})
     S = sc.S
+    # the Metadata PDU carries two messages to user and a flow label (which is not a message to user)
+    from spacepackets.cfdp import FlowLabelTlv
+    sc.md_options = [MessageToUserTlv(b"first"), FlowLabelTlv(b"fl"), MessageToUserTlv(b"second")]
     if reject:
         # the filestore refuses to create / truncate the destination file (default handler: cancellation)
         sc.rig.fs.reject = lambda kind, p: PermissionError if kind in ("create", "truncate") else None
@@ -116,6 +119,9 @@ def h_dest(ctx, N, mode, prefix=(), limits=2, reject=False, disposition=False):
             ctx.prop("metadata_indication_parameters",
                      sand(e[3] == S, e[4] == sc.src_name, e[5] == sc.dst_name, e[2] == sc.ids.src),
                      lambda: {"sig": "Metadata-Recv parameters differ from the PDU"})
+            got_msgs = [bytes(m.value) for m in (e[6] or [])]
+            ctx.prop("metadata_indication_messages", got_msgs == [b"first", b"second"],
+                     lambda: {"sig": f"Metadata-Recv carries the messages to user {got_msgs}, the PDU first/second"})
         eofs = [e for e in o.ind if e[0] == "eof_recv"]
         if ev[0] == "EOF" and o.exc is None and any(pdu_kind(p) == "ACK" for p in o.pdus) and not eof_seen:
             # the first EOF of the transaction; a repeated EOF is acknowledged again but is the same event
